@@ -59,6 +59,18 @@ template <> struct Tr<HWAddress<6> > {
     static AddressRange<HWAddress<6> > slash(const HWAddress<6>& a, int p) { return a / p; }
 };
 
+// the short hardware addresses (whole address spaces of 2^8 and 2^16 elements: explicit ranges over ALL of it can be iterated)
+template <> struct Tr<HWAddress<1> > {
+    enum { N = 1 }; static const char* name() { return "hw1"; }
+    static HWAddress<1> make(const Bytes& b) { return HWAddress<1>(&b[0]); }
+    static Bytes bytes(const HWAddress<1>& a) { return Bytes(a.begin(), a.end()); }
+};
+template <> struct Tr<HWAddress<2> > {
+    enum { N = 2 }; static const char* name() { return "hw2"; }
+    static HWAddress<2> make(const Bytes& b) { return HWAddress<2>(&b[0]); }
+    static Bytes bytes(const HWAddress<2>& a) { return Bytes(a.begin(), a.end()); }
+};
+
 static Bytes window_base(int N, int W, const std::string& win) {
     Bytes b(N, 0);
     if (win == "bot") return b;
@@ -179,6 +191,24 @@ template <class A> static void wide_exec(const vh::Json& sc, vh::Out& out) {
     w.E(); out.event(w); out.end();
 }
 
+// real-width EXPLICIT range [first, last] (two-address constructor) of at most 2^16 elements, anywhere in the address space - also
+// all of it for the one- and two-octet hardware addresses: membership at and around the ends, the complete iteration
+template <class A> static void widepair_exec(const vh::Json& sc, vh::Out& out) {
+    typedef Tr<A> T; Bytes first = to_bytes(sc["first"]), last = to_bytes(sc["last"]); long count = sc["count"].num(); bool post = sc["post"].truth();
+    out.begin("\"W\":0,\"what\":\"widepair\",\"t\":\"" + std::string(T::name()) + "\"");
+    vh::W w; w.O().kv("e", "widepair").kv("t", T::name()).kbytes("first", first).kbytes("last", last).kv("count", count);
+    try {
+        AddressRange<A> r(T::make(first), T::make(last));
+        w.kv("threw", false);
+        const vh::Json& pr = sc["probes"];
+        w.key("probes").A(); for (size_t i = 0; i < pr.size(); ++i) { Bytes t = to_bytes(pr[i]); w.bytes(t.begin(), t.end()); } w.E();
+        w.key("contains").A(); for (size_t i = 0; i < pr.size(); ++i) w.v(r.contains(T::make(to_bytes(pr[i])))); w.E();
+        w.kv("iterable", r.is_iterable());
+        iterate<A>(r, first, count + 8, 2 * count + 4, post, w);
+    } catch (std::exception&) { w.kv("threw", true).key("probes").A().E().key("contains").A().E().kv("iterable", false).kv("terminated", false).key("visited").A().E(); }
+    w.E(); out.event(w); out.end();
+}
+
 // real-width range from an address and an ARBITRARY mask (wildcard masks, masks with zero octets in the middle): ends and membership
 template <class A> static void widemask_exec(const vh::Json& sc, vh::Out& out) {
     typedef Tr<A> T; Bytes a = to_bytes(sc["a"]), m = to_bytes(sc["m"]);
@@ -211,6 +241,8 @@ static void scenario(const vh::Json& sc, vh::Out& out, vh::Rng&, const vh::Args&
     } else if (kind == "cmp") { std::string t = sc["t"].str(); DISPATCH(t, cmp_exec<A>(sc, out)); }
     else if (kind == "rt") { std::string t = sc["t"].str(); DISPATCH(t, rt_exec<A>(sc, out)); }
     else if (kind == "wide") { std::string t = sc["t"].str(); DISPATCH(t, wide_exec<A>(sc, out)); }
+    else if (kind == "widepair") { std::string t = sc["t"].str();
+        if (t == "hw1") widepair_exec<HWAddress<1> >(sc, out); else if (t == "hw2") widepair_exec<HWAddress<2> >(sc, out); else DISPATCH(t, widepair_exec<A>(sc, out)); }
     else if (kind == "widemask") { std::string t = sc["t"].str(); DISPATCH(t, widemask_exec<A>(sc, out)); }
 }
 int main(int argc, char** argv) { return vh::run(argc, argv, scenario); }
